@@ -27,6 +27,24 @@ CHECKS = {
             'multiple of the baseline measured in the same run; traces decided by TLC (TRACE_Repl). Fault kinds/points are sampled.',
             'timing-based; two open findings (stalled reader blocks the primary; stalled reader is not dropped) whose witnesses reproduce each run',
             'TLC MC + fault scenarios with in-run baselines + TLC trace validation'),
+    'C19': ('model_checking', '§7 C19',
+            'KevoService states the embedded API once and defines every network action as limit checks + handle lookup + the embedded '
+            'operator; TLC checks RejectedHasNoEffect, LimitsEnforced, HandleUnusableAfterFinish, ScanSound and RefinesEmbedded over key '
+            'classes (empty, 1 byte, 4096, 4097 bytes), value classes (empty, ordinary, 10 MiB, 10 MiB+1), batch sizes 0/1-3/1000/1001 and '
+            'handle states. TLC-generated request sequences (16 scripted scenario families incl. two sweeps of the whole scan-option product, '
+            'plus random sequences) are sent to a real gRPC server wired as cmd/kevo (in process, and the real kevo -server binary); every '
+            'response and, after every request, the store (engine iterator, Scan RPC, Get per key; once more after reopen) are compared with '
+            'the prediction; every behaviour ends with the probe that a fresh read-write transaction is granted.',
+            'sequential client (lock waiting is C17/C04); error texts and status codes not compared; bounded model constants, five ordinary keys',
+            'TLC MC + replay of generated request sequences against a real gRPC server with predicted responses and store state'),
+    'C16': ('model_checking', '§7 C16',
+            'KevoService with a role: TLC checks ReadOnlyRejectsMutators, ApplyWorks, ApplyAndReadsAlwaysEnabled, NodeInfoTruthful and TableOK '
+            'on the table of entry points. The entry points are ENUMERATED from the real interfaces by reflection (an unclassified method that '
+            'changes a read-only engine is flagged); generated behaviours mix client requests, replicated applies (EngineApplier / '
+            'ApplyBatchInternal) and role queries against a real replica-mode server (in process and the real binary with '
+            '-replication-mode); client mutations are deterministically overlapped with applies parked at hook sites.',
+            'accessors handing out internals (GetTransactionManager) are classified as internals, stated as an assumption; replication wire protocol is C13-C15',
+            'TLC MC + reflection-enumerated entry points + replay of generated behaviours with gated apply/mutation overlaps'),
     'C09': ('model_checking', '§7 C09',
             'KevoWal models writer fragmentation and reader reassembly at record grain over 16 named shape classes (record-size boundaries, '
             'fragmented keys, batches below/above the buffer, rotation, reuse); TLC checks ReplayIsAppended, FromIsSuffix, SeqUp, NextMatchesLog. '
